@@ -415,6 +415,20 @@ impl TransformerContext {
         self.scope_stack.push(scope);
     }
 
+    /// Attributes of `<g>` / `<reuse>` elements act as variables for their content,
+    /// so - as for `<var>` - values *computed* for them are subject to `var-limit`.
+    /// (Without this, e.g. nested `<g a="$a$a">` doubles the value at every level.)
+    /// Attributes which evaluate to themselves are plain SVG and are left alone.
+    pub fn check_scope_vars(&self, raw: &SvgElement, evaluated: &SvgElement) -> Result<()> {
+        let limit = self.config.var_limit;
+        for (key, value) in evaluated.get_attrs() {
+            if value.len() > limit as usize && raw.get_attr(&key).as_ref() != Some(&value) {
+                return Err(SvgdxError::VarLimitError(key, value.len(), limit));
+            }
+        }
+        Ok(())
+    }
+
     pub fn pop_element(&mut self) -> Option<SvgElement> {
         self.scope_stack.pop();
         self.element_stack.pop()
